@@ -110,4 +110,65 @@ class FixedInspector(fi.FileInspector):
             raise fi.SafetyViolation('tail')
 
 
-PROGRAMS = {'chain': ChainInspector, 'fixed': FixedInspector}
+class RelocInspector(fi.FileInspector):
+    """VMDK-like: provisional descriptor at the start, relocated by the header;
+    late end region; descriptor parsed in region_complete."""
+    NAME = 'reloc'
+    DESC_OFF = 3
+    DESC_MAX = 2
+
+    def _initialize(self):
+        self.dtype = 0
+        self.new_region('header', fi.CaptureRegion(0, 3, min_length=2))
+        self.new_region('desc', fi.CaptureRegion(0, 3, min_length=1))
+        self.add_safety_check(fi.SafetyCheck('descriptor', self.check_descriptor))
+
+    def post_process(self):
+        # same shape as VMDKInspector.post_process
+        if not self.has_region('header') or not self.region('header').complete:
+            return
+        h = self.region('header').data
+        v, num = h[0], h[1]
+        if v not in (1, 2):
+            raise fi.ImageFormatError('scaled: signature not found')
+        if v == 2 and not self.has_region('footer'):
+            self.new_region('footer', fi.EndCaptureRegion(2))
+            self.add_safety_check(fi.SafetyCheck('footer', self.check_footer))
+        if self.region('desc').offset == 0:
+            self.delete_region('desc')
+            self.new_region('desc', fi.CaptureRegion(self.DESC_OFF, min(num, self.DESC_MAX)))
+
+    def region_complete(self, region_name):
+        if region_name == 'desc':
+            r = self.region('desc')
+            if r.offset == 0:
+                self.dtype = 9
+            elif len(r.data) == 0:
+                self.dtype = 0
+            else:
+                self.dtype = r.data[0]
+
+    @property
+    def format_match(self):
+        if self.has_region('header'):
+            d = self.region('header').data
+            return len(d) >= 1 and d[0] in (1, 2)
+        return False
+
+    @property
+    def virtual_size(self):
+        if self.dtype != 1:
+            return 0
+        return self.region('header').data[1]
+
+    def check_descriptor(self):
+        if self.dtype != 1:
+            raise fi.SafetyViolation('descriptor')
+
+    def check_footer(self):
+        f = self.region('footer').data
+        if len(f) >= 1 and f[0] != self.region('header').data[0]:
+            raise fi.SafetyViolation('footer')
+
+
+PROGRAMS = {'chain': ChainInspector, 'fixed': FixedInspector, 'reloc': RelocInspector}
